@@ -22,6 +22,11 @@ static long emitted = 0;
 #define EMIT(...) do { printf(__VA_ARGS__); emitted++; } while (0)
 
 static vector<string>* LOG = 0;
+// hook H4: cells that Solver::check_sol discards after a certification attempt are noted in the log ("X~cell"):
+// the replay ignores the note (such a cell must still be justified), it only names the call site of a rejected step
+namespace ibex { namespace verif { extern void (*solver_discard_hook)(const IntervalVector&, const IntervalVector&); } }
+static vector<IntervalVector> DISCARDS;     // cells discarded by check_sol during the current run (also for runs without log)
+static void note_discard(const IntervalVector& cell, const IntervalVector&) { if (LOG) LOG->push_back("X~" + tok(cell)); if (DISCARDS.size() < 100000) DISCARDS.push_back(cell); }
 struct LogCtc : public Ctc {
   Ctc& c;
   LogCtc(Ctc& c) : Ctc(c.nb_var), c(c) {}
@@ -106,7 +111,10 @@ static void report(Rng& r, Problem& P, const IntervalVector& root, const CovSolv
     if (r.coin(40)) { int i = r.below(P.n); q = P.planted[0]; q[i] = root[i].lb() + r.range(0, 32) / 32.0 * (root[i].ub() - root[i].lb()); if (!root[i].contains(q[i])) q[i] = P.planted[0][i]; }
     pts.push_back(q); }
   if (!C06_LINES)   // (completeness is property C05)
-  for (auto& q : pts) if (root.contains(q)) EMIT("solvept %s %s %s %s run%ld => 1\n", P.dags.c_str(), P.specs.c_str(), ptok(q).c_str(), pv.c_str(), RUN_ID);
+  for (auto& q : pts) if (root.contains(q)) {
+    // the cells discarded by check_sol (hook H4) that contain the point: names the call site if the point is lost
+    string notes; int nn = 0; for (auto& c : DISCARDS) if (c.contains(q) && nn < 4) { if (nn++) notes += "|"; notes += tok(c); } if (!nn) notes = "-";
+    EMIT("solvept %s %s %s %s %s run%ld => 1\n", P.dags.c_str(), P.specs.c_str(), ptok(q).c_str(), pv.c_str(), notes.c_str(), RUN_ID); }
   // (a sample of at most 25 boxes of each kind)
   { size_t N = d.nb_inner(), step = N > 25 ? N / 25 : 1; for (size_t i = 0; i < N; i += step) if (P.m == 0) EMIT("solveinner %s %s %s => 1\n", P.dags.c_str(), P.specs.c_str(), tok(d.inner(i)).c_str()); }
   { size_t N = d.nb_unknown(), step = N > 25 ? N / 25 : 1; for (size_t i = 0; i < N; i += step) EMIT("solveunknown %s %s => 1\n", tok(d.unknown(i)).c_str(), vtok(eps_min).c_str()); }
@@ -163,7 +171,7 @@ static void wl_resume(Rng& r, long count, bool full, const string& file) {
       if ((long)ks.size() > maxk) { vector<long> sel; for (long k : ks) if (k <= 3 || k >= N - 8 || r.coin((int)(100 * maxk / ks.size()))) sel.push_back(k); ks = sel; }
       ks.push_back(-2);   // interruption by the time limit (non-deterministic point)
       for (long k : ks) {
-        RUN_ID++;   // (one id for the whole chain of interrupted / resumed runs: a lost solution shows at the end of the chain)
+        RUN_ID++; DISCARDS.clear();   // (one id for the whole chain of interrupted / resumed runs: a lost solution shows at the end of the chain)
         int links = r.coin(25) ? (int)r.range(2, 3) : 1;
         Run* cur = (k == -2) ? new Run(P, c, 0, -1, 1e-4 * r.range(1, 20)) : new Run(P, c, 0, k, 60);
         if (cur->log.size() < 3000) {
@@ -195,6 +203,7 @@ static void wl_resume(Rng& r, long count, bool full, const string& file) {
 }
 
 int main(int argc, char** argv) {
+  ibex::verif::solver_discard_hook = note_discard;
   string wl = argc > 1 ? argv[1] : "c05";
   uint64_t seed = argc > 2 ? strtoull(argv[2], 0, 10) : 1;
   long n = argc > 3 ? atol(argv[3]) : 50;
@@ -239,7 +248,7 @@ int main(int argc, char** argv) {
         else if (P.m < P.n) s.cell_limit = r.range(100, 400);   // pavings of sets: keep the log small
         else s.cell_limit = 3000;
         s.time_limit = 20; s.trace = 0;
-        vector<string> log; LOG = &log; RUN_ID++;
+        vector<string> log; LOG = &log; RUN_ID++; DISCARDS.clear();
         Solver::Status st = s.solve(root);
         LOG = 0;
         check_round_up("solver");
@@ -251,7 +260,7 @@ int main(int argc, char** argv) {
         try {
           DefaultSolver ds(sys, eps_min, POS_INFINITY, r.coin(), 1.0);
           ds.time_limit = 20; ds.cell_limit = P.m < P.n ? 300 : 2000;
-          RUN_ID++;
+          RUN_ID++; DISCARDS.clear();
           Solver::Status st = ds.solve(root);
           EMIT("defaultsolver run => %s\n", status_name(st));
           vector<string> nolog; report(r, P, root, ds.get_data(), st, nolog, eps_min, false);
